@@ -25,7 +25,9 @@ def run(ctx):
         runs.append(("mixed-lite3", {"InitTables <- T2": "InitTables <- FewTables", "MaxOps = 2": "MaxOps = 3", "Ops <- IW": "Ops <- AllOps", "Lite = FALSE": "Lite = TRUE"}, None))
         runs.append(("mixed-sim", {"InitTables <- T2": "InitTables <- SomeTables", "MaxOps = 2": "MaxOps = 4", "Ops <- IW": "Ops <- AllOps"}, dict(num=8)))
         runs.append(("where3", {"InitTables <- T2": "InitTables <- Tables3", "MaxOps = 2": "MaxOps = 3", "Ops <- IW": "Ops <- W3"}, None))
+        runs.append(("reindex-sim", {"InitTables <- T2": "InitTables <- FewTables", "MaxOps = 2": "MaxOps = 4", "Lite = FALSE": "Lite = TRUE"}, dict(num=150)))
     else:
+        runs.append(("reindex-sim", {"InitTables <- T2": "InitTables <- SomeTables", "MaxOps = 2": "MaxOps = 5", "Lite = FALSE": "Lite = TRUE"}, dict(num=3000)))
         runs.append(("where3", {"InitTables <- T2": "InitTables <- Tables3", "MaxOps = 2": "MaxOps = 4", "Ops <- IW": "Ops <- W3"}, None))
         runs.append(("T2x2", {}, None))
         runs.append(("some3-lite", {"InitTables <- T2": "InitTables <- SomeTables", "MaxOps = 2": "MaxOps = 3", "Lite = FALSE": "Lite = TRUE"}, None))
